@@ -34,11 +34,12 @@ ASSUMPTIONS = ["the network is fault-free in these scenarios: the fault under st
                "SHUTDOWN_TIMEOUT is 3 s"]
 EXPECTED_PROBES = ["awaiting_ack", "awaiting_separate_response", "mid_blockwise", "client_observation", "server_observation",
                    "backlog_queued", "handler_running", "empty_ack_timer_pending", "dedup_entries", "nothing_outstanding",
-                   "awaiting_tcp_response"]
+                   "awaiting_tcp_response", "tokens_65536_later", "observation_cancelled_by_application"]
 
 OTHER_IP = "fd00::3"
 ACTIVITIES = ["t_req_silent", "t_req_acked", "t_backlog", "t_get_big", "t_put_big", "t_observe", "s_req_slow",
-              "s_observe", "s_req_fast", "o_req", "t_backlog_acked", "s_token_reuse", "t_req_tcp", "s_req_tcp", "t_req_cancel"]
+              "s_observe", "s_req_fast", "o_req", "t_backlog_acked", "s_token_reuse", "t_req_tcp", "s_req_tcp", "t_req_cancel",
+              "t_many_tokens", "t_obs_cancel"]
 
 
 def gen(r, tier):
@@ -221,6 +222,8 @@ def run_world(scn, shutdown_at, seed):
                            on_event=lambda p, k, i: p.write(CSM) if k == "made" else None)
 
         close_delay = 1.0
+        SLOW_TCP_IP = "fd00::21"  # a host that swallows connection attempts: connecting takes half a minute to fail
+        sn.connect_fault = lambda index, h, port: (["delay", 30.0] if h == SLOW_TCP_IP else None)
         tcp_listener = TcpPeerListener(sim, TCP_PEER_IP, 5683, tcp_server_peer)
         tcp_clients = []
         T, O = loop.run_until_complete(setup())
@@ -263,6 +266,33 @@ def run_world(scn, shutdown_at, seed):
                     if not rec["req"].response.done():
                         rec["req"].response.cancel()
                 loop.at(loop.now + a["d"], cancel)
+            elif k == "t_many_tokens":
+                # a context that has been in use for long: between a request that stays open (acknowledged, the
+                # separate response never comes) and a few more requests to the same peer, 65533 tokens are handed out
+                # (TokenManager.next_token() is the public way to reserve one), so that 16 bits of a counter come round
+                t_request(tag + ".open", Message(code=GET, uri="coap://[%s]/acked?long" % peer2.addr[0]))
+
+                def later(tag=tag):
+                    sim.probe("tokens_65536_later")
+                    tman = T.request_interfaces[0]
+                    for _ in range(65533):
+                        tman.next_token()
+                    for j in range(3):
+                        t_request(tag + ".e%d" % j, Message(code=GET, uri="coap://[%s]/echo?%d" % (peer2.addr[0], j)))
+                loop.at(loop.now + a["d"], later)
+            elif k == "t_obs_cancel":
+                # the application cancels an observation of its own (ClientObservation.cancel(), the documented way
+                # while callbacks are in use) before the first response has come -- the request itself is still open
+                for bw in (False, True):
+                    msg = Message(code=GET, uri="coap://[%s]/silent?o%d" % (peer.addr[0], int(bw)), observe=0)
+                    rec = ttrack.start(tag + (".bw" if bw else ".plain"), T, msg, handle_blockwise=bw)
+                    rec["req"].observation.register_errback(lambda e: None)
+
+                    def cancel_obs(rec=rec):
+                        sim.probe("observation_cancelled_by_application")
+                        if not rec["req"].observation.cancelled:
+                            rec["req"].observation.cancel()
+                    loop.at(loop.now + a["d"], cancel_obs)
             elif k == "t_req_tcp":
                 t_request(tag + ".silent", Message(code=GET, uri="coap+tcp://[%s]/silent" % TCP_PEER_IP))
                 t_request(tag + ".late", Message(code=GET, uri="coap+tcp://[%s]/late" % TCP_PEER_IP))
@@ -352,6 +382,8 @@ def run_world(scn, shutdown_at, seed):
                     # a request submitted after shutdown has returned
                     rec = ttrack.start("after-shutdown", T, Message(code=GET, uri="coap://[%s]/echo" % peer2.addr[0]))
                     rec["submitted_after"] = loop.now
+                    rec = ttrack.start("after-shutdown-tcp", T, Message(code=GET, uri="coap+tcp://[%s]/echo" % SLOW_TCP_IP))
+                    rec["submitted_after"] = loop.now
                 if after == 3:
                     return  # (the handler of /quit calls shutdown itself)
                 if after == 4:
@@ -376,6 +408,8 @@ def run_world(scn, shutdown_at, seed):
                     if sd["t_return"] is None:
                         sd["t_return"] = sd["t_start"] + 3.0 if sd["t_start"] is not None else None
                     rec = ttrack.start("after-shutdown", T, Message(code=GET, uri="coap://[%s]/echo" % peer2.addr[0]))
+                    rec["submitted_after"] = loop.now
+                    rec = ttrack.start("after-shutdown-tcp", T, Message(code=GET, uri="coap+tcp://[%s]/echo" % SLOW_TCP_IP))
                     rec["submitted_after"] = loop.now
                 loop.at(t_sd + 3.6, late_request)
             if after == 3:
@@ -571,13 +605,16 @@ def judge(sim, scn, base, base_exc, res, t_sd, after):
             sim.violation("C18/loop-exception-after-shutdown:%s" % en, dict(ident, t=t, message=m, text=es,
                                                                            after_return=t > t_ret + TOL))
     # ---- a request submitted afterwards fails immediately with the shutdown error
-    rec = res["ttrack"].results.get("after-shutdown")
-    if rec is None or not rec["done"]:
-        sim.violation("C18/request-after-shutdown-hangs", ident)
-    elif rec["outcome"] != "error" or not isinstance(rec["exception"], error.LibraryShutdown):
-        sim.violation("C18/request-after-shutdown-wrong-outcome", dict(ident, outcome=rec["outcome"], exc=repr(rec.get("exception"))))
-    elif rec["t_done"] - rec["submitted_after"] > TOL:
-        sim.violation("C18/request-after-shutdown-not-immediate", dict(ident, delay=rec["t_done"] - rec["submitted_after"]))
+    for name, transport in (("after-shutdown", "udp"), ("after-shutdown-tcp", "tcp")):
+        rec = res["ttrack"].results.get(name)
+        idt = dict(ident, transport=transport)
+        if rec is None or not rec["done"]:
+            sim.violation("C18/request-after-shutdown-hangs", idt)
+        elif rec["t_done"] - rec["submitted_after"] > TOL:
+            sim.violation("C18/request-after-shutdown-not-immediate", dict(idt, delay=rec["t_done"] - rec["submitted_after"],
+                                                                        outcome=rec["outcome"], exc=repr(rec.get("exception"))))
+        elif rec["outcome"] != "error" or not isinstance(rec["exception"], error.LibraryShutdown):
+            sim.violation("C18/request-after-shutdown-wrong-outcome", dict(idt, outcome=rec["outcome"], exc=repr(rec.get("exception"))))
     # ---- the other context is unaffected
     for tag, brec in base["otrack"].results.items():
         rec = res["otrack"].results.get(tag)
